@@ -190,7 +190,7 @@ pub fn run(tier: Tier) -> Report {
             .into_par_iter()
             .step_by(tier.pick(2, 1))
             .map(|c| {
-                let env = EnvConfig { chunks: split_at(&s.bytes, &[c]), feeder_task: true, clamp: None, stdout_cap: None };
+                let env = EnvConfig { chunks: split_at(&s.bytes, &[c]), feeder_task: true, clamp: None, stdout_cap: None, delay_bounded: false };
                 let e = sched::explore(&env, tier.pick(1, 2));
                 let mut f = None;
                 if let Some((m, sc)) = &e.abort {
